@@ -80,3 +80,19 @@ pub fn parse_ref_answer(ans: &str) -> Option<(String, Vec<u8>, String)> {
     let outcome = if outcome == "halted" { "normal".to_owned() } else { outcome };
     Some((outcome, bytes, env))
 }
+
+/// the faithful syntax tree, the slot table and the real instruction list of a core program
+pub fn core_src_and_code(text: &str) -> Option<(String, String, String)> {
+    let t = text.to_owned();
+    std::panic::catch_unwind(move || {
+        let p = rusty_parser::parse_main_str(t).ok()?;
+        let (linted, ctx) = rusty_linter::core::lint(p).ok()?;
+        let (src, table) = ast_sx::program_src(&linted)?;
+        let (names, _udt) = rusty_basic::instruction_generator::unwrap_linter_context(ctx);
+        let res = rusty_basic::instruction_generator::generate_instructions(linted, names);
+        let (code, _addrs) = crate::instr_sx::program(&res);
+        Some((src, table, code))
+    })
+    .ok()
+    .flatten()
+}
